@@ -222,10 +222,14 @@ def run(chk, repo):
         if pth.end_kind() != 'return':
             continue
         last = tcfg.nodes[pth.steps[-1][0]]
+        if pth.facts.known('sort') is False:
+            continue
+        if isinstance(last.ast, ast.Return) and isinstance(last.ast.value, ast.Call) and call_name(last.ast.value) == 'sorted' \
+                and not any(k.arg in ('key', 'reverse') for k in last.ast.value.keywords):
+            n_ret += 1          # `return sorted(x)`: sorted by construction
+            continue
         if not (isinstance(last.ast, ast.Return) and isinstance(last.ast.value, ast.Name)):
             bad = bad or (pth, 'return value is not a plain name')
-            continue
-        if pth.facts.known('sort') is False:
             continue
         n_ret += 1
         x = last.ast.value.id
